@@ -450,12 +450,19 @@ func compiledProgramReadOnly(r *an.Run, rule string) {
 	reach := r.P.ReachableModuleFuncs(roots...)
 	// compile-time functions reachable only because captures compile matchers at match time are included on purpose:
 	// they must not write shared state either, except into the compiler object they just created.
+	closure := compiledTypeClosure(r)
 	isCompiled := func(t types.Type) bool {
 		if p, ok := t.(*types.Pointer); ok {
 			t = p.Elem()
 		}
 		n, ok := t.(*types.Named)
-		if !ok || n.Obj().Pkg() == nil || n.Obj().Pkg().Path() != enginePath {
+		if !ok || n.Obj().Pkg() == nil || !strings.HasPrefix(n.Obj().Pkg().Path(), an.Module) {
+			return false
+		}
+		if closure[n.Obj()] {
+			return true
+		}
+		if n.Obj().Pkg().Path() != enginePath {
 			return false
 		}
 		for _, c := range compiledTypes {
@@ -654,4 +661,48 @@ func closureBinding(f *ssa.Function, fv *ssa.FreeVar) ssa.Value {
 		}
 	}
 	return nil
+}
+
+// compiledTypeClosure returns the named module types reachable through fields
+// from engine.Program and engine.Change: everything a compiled patch is made
+// of, whatever it is called.
+func compiledTypeClosure(r *an.Run) map[*types.TypeName]bool {
+	out := map[*types.TypeName]bool{}
+	var visit func(t types.Type, depth int)
+	visit = func(t types.Type, depth int) {
+		if depth > 12 {
+			return
+		}
+		switch u := t.(type) {
+		case *types.Pointer:
+			visit(u.Elem(), depth+1)
+		case *types.Slice:
+			visit(u.Elem(), depth+1)
+		case *types.Array:
+			visit(u.Elem(), depth+1)
+		case *types.Map:
+			visit(u.Key(), depth+1)
+			visit(u.Elem(), depth+1)
+		case *types.Named:
+			o := u.Obj()
+			if o.Pkg() == nil || !strings.HasPrefix(o.Pkg().Path(), an.Module) {
+				return
+			}
+			if out[o] {
+				return
+			}
+			out[o] = true
+			if st, ok := u.Underlying().(*types.Struct); ok {
+				for i := 0; i < st.NumFields(); i++ {
+					visit(st.Field(i).Type(), depth+1)
+				}
+			}
+		}
+	}
+	for _, name := range []string{"Program", "Change"} {
+		if n := r.P.NamedType(engine, name); n != nil {
+			visit(n, 0)
+		}
+	}
+	return out
 }
